@@ -5,7 +5,12 @@ dual-number oracle's laws and "the transcribed differentiator refines the dual-n
 meaning" on the model; this driver calls the real differentiate() / DifferentiationMapper for
 all three non-smoothness settings and every entry point and records what came back; TLC
 (spec/C10_Judge.tla) evaluates every returned tree itself and judges it against the
-dual-number derivative.  Nothing in here decides a verdict."""
+dual-number derivative.  Nothing in here decides a verdict.
+
+Round 2: the input is a graph of Python objects.  Every pair is also differentiated in the
+object-sharing variants TLC lists for it (repeated subtrees built as ONE object), and the
+histories of spec/C10_Hist.tla are replayed on ONE DifferentiationMapper instance with the
+expressions really built and really deleted (drive_hist)."""
 from __future__ import annotations
 
 import concurrent.futures as cf
@@ -17,13 +22,15 @@ from harness import kit, ser
 
 NSS = ["none", "continuous", "discontinuous"]
 NEG_BUGS = ["quot_sign", "quot_shortcut_sign", "pow_exp", "table_sin", "table_cos_sign",
-            "fabs_always", "cse_drop_chain"]
+            "fabs_always", "cse_drop_chain", "product_identity"]
 
 
 # ------------------------------------------------------------------ driving
-def _observe(thunk, envs):
+def _observe(thunk, envs, known=None):
     """Call into pymbolic; serialise the returned tree (or the exception class) and what
-    pymbolic's own evaluator makes of the returned object at the points of the box."""
+    pymbolic's own evaluator makes of the returned object at the points of the box.  *known*: the
+    observations (without the evaluator part) already recorded for this case -> their index; a
+    known one is answered by its index."""
     from pymbolic.mapper.evaluator import EvaluationMapper
     holder = {}
 
@@ -32,38 +39,243 @@ def _observe(thunk, envs):
         return holder["res"]
 
     out = ser.obj_to_json(call)
+    if known is not None:
+        k = known.get(json.dumps(out, sort_keys=True))
+        if k is not None:
+            return k
     if out["r"] == "ok":
         res = holder["res"]
         out["py"] = [ser.call_to_json(lambda env=env: EvaluationMapper(env)(res)) for env in envs]
     return out
 
 
+def _canon(j):
+    return json.dumps(j, sort_keys=True, separators=(",", ":"))
+
+
+def build_shared(j, keys, memo):
+    """Expr.tla record -> pymbolic object (constructors only, like ser.from_json); a subtree whose
+    canonical JSON is in *keys* is built once and that ONE object is used wherever it occurs
+    (memo), every other subtree is a new object at every occurrence."""
+    import pymbolic.primitives as p
+    k = None
+    if keys:
+        k = _canon(j)
+        if k in keys and k in memo:
+            return memo[k]
+    t = j["t"]
+    rec = lambda c: build_shared(c, keys, memo)      # noqa: E731
+    if t in ("Sum", "Product"):
+        r = getattr(p, t)(tuple(rec(c) for c in j["c"]))
+    elif t in ("Quotient", "Power"):
+        r = getattr(p, t)(rec(j["a"]), rec(j["b"]))
+    elif t == "Sub":
+        r = p.Subscript(rec(j["a"]), rec(j["b"]))
+    elif t == "Cmp":
+        r = p.Comparison(rec(j["a"]), j["op"], rec(j["b"]))
+    elif t == "If":
+        r = p.If(rec(j["i"]), rec(j["th"]), rec(j["el"]))
+    elif t == "Call":
+        r = p.Call(rec(j["f"]), tuple(rec(c) for c in j["c"]))
+    elif t == "Look":
+        r = p.Lookup(rec(j["a"]), j["name"])
+    elif t == "CSE":
+        r = p.CommonSubexpression(rec(j["a"]), j["prefix"] or None, j["scope"])
+    else:
+        r = ser.from_json(j)              # leaves (and kinds outside the fragment: nothing shared inside)
+    if k is not None and k in keys:
+        memo[k] = r
+    return r
+
+
 def drive_case(case, extra):
     from pymbolic.mapper.differentiator import DifferentiationMapper, differentiate
     envs = [{k: ser.json_to_val(v) for k, v in env.items()} for env in extra["envs"]]
-    e = ser.from_json(case["e"])
-    vobj = ser.from_json(case["v"])
-    calls = []
-    for ns in NSS:
-        if case["v"]["t"] == "Var":
-            calls.append((ns, "differentiate(e,'name')",
-                          lambda ns=ns: differentiate(e, case["v"]["name"], allowed_nonsmoothness=ns)))
-        calls.append((ns, "differentiate(e,obj)",
-                      lambda ns=ns: differentiate(e, vobj, allowed_nonsmoothness=ns)))
-        calls.append((ns, "DifferentiationMapper(obj,ns)(e)",
-                      lambda ns=ns: DifferentiationMapper(vobj, allowed_nonsmoothness=ns)(e)))
-    # the defaults mean "none"
-    calls.append(("none", "differentiate(e,obj) default", lambda: differentiate(e, vobj)))
-    calls.append(("none", "DifferentiationMapper(obj)(e) default", lambda: DifferentiationMapper(vobj)(e)))
-    outs, keys, runs = [], {}, []
-    for ns, entry, thunk in calls:
-        o = _observe(thunk, envs)
-        key = json.dumps(o, sort_keys=True)
-        if key not in keys:
-            outs.append(o)
-            keys[key] = len(outs)          # 1-based: TLA+ sequences
-        runs.append({"ns": ns, "entry": entry, "k": keys[key]})
+    rep = case.get("rep", [])
+    outs, keys, tkeys, runs = [], {}, {}, []
+    # variant 0: nothing shared (every node a new object); then the variants TLC listed
+    for vi, sh in enumerate([None] + list(case.get("shs", []))):
+        if sh is None:
+            e = ser.from_json(case["e"])
+            vobj = ser.from_json(case["v"])
+        else:
+            share, memo = {_canon(rep[i - 1]) for i in sh}, {}
+            e = build_shared(case["e"], share, memo)
+            vobj = build_shared(case["v"], share, memo)
+        calls = []
+        for ns in NSS:
+            if case["v"]["t"] == "Var":
+                calls.append((ns, "differentiate(e,'name')",
+                              lambda ns=ns, e=e: differentiate(e, case["v"]["name"], allowed_nonsmoothness=ns)))
+            calls.append((ns, "differentiate(e,obj)",
+                          lambda ns=ns, e=e, vobj=vobj: differentiate(e, vobj, allowed_nonsmoothness=ns)))
+            calls.append((ns, "DifferentiationMapper(obj,ns)(e)",
+                          lambda ns=ns, e=e, vobj=vobj: DifferentiationMapper(vobj, allowed_nonsmoothness=ns)(e)))
+        # the defaults mean "none"
+        calls.append(("none", "differentiate(e,obj) default", lambda e=e, vobj=vobj: differentiate(e, vobj)))
+        calls.append(("none", "DifferentiationMapper(obj)(e) default",
+                      lambda e=e, vobj=vobj: DifferentiationMapper(vobj)(e)))
+        for ns, entry, thunk in calls:
+            if vi == 0:
+                o = _observe(thunk, envs)
+                key = json.dumps(o, sort_keys=True)
+                if key not in keys:
+                    outs.append(o)
+                    keys[key] = len(outs)          # 1-based: TLA+ sequences
+                k = keys[key]
+                tkeys.setdefault(json.dumps({f: x for f, x in o.items() if f != "py"}, sort_keys=True), k)
+            else:
+                # a sharing variant: the returned tree is the observation; pymbolic's own evaluation
+                # of it is recorded when the tree is new
+                o = _observe(thunk, envs, tkeys)
+                if isinstance(o, int):
+                    k = o
+                else:
+                    outs.append(o)
+                    k = len(outs)
+                    tkeys[json.dumps({f: x for f, x in o.items() if f != "py"}, sort_keys=True)] = k
+            runs.append({"ns": ns, "entry": entry, "sh": vi, "k": k})
     return {"id": case["id"], "e": case["e"], "v": case["v"], "outs": outs, "runs": runs}
+
+
+# ------------------------------------------------- histories on ONE mapper
+_BOUND = 16
+_HOARD = [None] * (_BOUND + 1)
+
+
+def _has_cse(j):
+    if isinstance(j, dict):
+        return j.get("t") == "CSE" or any(_has_cse(v) for v in j.values())
+    if isinstance(j, list):
+        return any(_has_cse(v) for v in j)
+    return False
+
+
+def _plan(j, steps, pre, seen):
+    """Post-order construction plan of an expression: CSE-free subtrees are built now (once, kept
+    for the whole history), the CSE nodes and what is above them are built when the history says
+    "build".  Equal CSE nodes of one expression are one object (as in the model)."""
+    import pymbolic.primitives as p
+    if not _has_cse(j):
+        k = _canon(j)
+        if k not in pre:
+            pre[k] = ser.from_json(j)
+        steps.append(("obj", pre[k], None, None))
+        return len(steps) - 1
+    t = j["t"]
+    if t == "CSE":
+        k = _canon(j)
+        if k in seen:
+            return seen[k]
+        a = _plan(j["a"], steps, pre, seen)
+        steps.append(("cse", a, j["prefix"] or None, j["scope"]))
+        seen[k] = len(steps) - 1
+    elif t in ("Sum", "Product"):
+        ks = [_plan(c, steps, pre, seen) for c in j["c"]]
+        steps.append(("nary", getattr(p, t), ks, None))
+    elif t in ("Quotient", "Power"):
+        a, b = _plan(j["a"], steps, pre, seen), _plan(j["b"], steps, pre, seen)
+        steps.append(("bin", getattr(p, t), a, b))
+    elif t == "Call":
+        ks = [_plan(c, steps, pre, seen) for c in j["c"]]
+        steps.append(("call", ser.from_json(j["f"]), ks, None))
+    elif t == "If":
+        ks = [_plan(j["th"], steps, pre, seen), _plan(j["el"], steps, pre, seen)]
+        steps.append(("if", ser.from_json(j["i"]), ks[0], ks[1]))
+    else:
+        raise kit.MachineryError(f"C10 history pool: no construction plan for a {t} above a CSE node")
+    return len(steps) - 1
+
+
+def _land(child, prefix, scope, dead):
+    """A new CSE node, placed on the address of a dead one if the heap offers it: the freed blocks
+    are handed out last-freed-first and a node takes two of them (object, attribute values), so
+    a few nodes are created and held, in both parities.  Allocation-free apart from the nodes."""
+    from pymbolic.primitives import CommonSubexpression
+    parity = 0
+    while parity < 2:
+        filler = bytes(15) if parity else None      # one block of the node's size class
+        k = 0
+        got = None
+        while k < _BOUND:
+            n2 = CommonSubexpression(child, prefix, scope)
+            if id(n2) in dead:
+                got = n2
+                break
+            _HOARD[k] = n2
+            k += 1
+        n2 = None
+        while k > 0:
+            k -= 1
+            _HOARD[k] = None
+        filler = None
+        if got is not None:
+            return got
+        parity += 1
+    return CommonSubexpression(child, prefix, scope)
+
+
+def _execute(steps, dead, nodes):
+    import pymbolic.primitives as p
+    vals = [None] * len(steps)
+    i, n = 0, len(steps)
+    while i < n:
+        kind, a, b, c = steps[i]
+        if kind == "obj":
+            vals[i] = a
+        elif kind == "cse":
+            node = _land(vals[a], b, c, dead) if dead else p.CommonSubexpression(vals[a], b, c)
+            nodes.append(node)
+            vals[i] = node
+            node = None
+        elif kind == "nary":
+            vals[i] = a(tuple([vals[k] for k in b]))
+        elif kind == "call":
+            vals[i] = p.Call(a, tuple([vals[k] for k in b]))
+        elif kind == "if":
+            vals[i] = p.If(a, vals[b], vals[c])
+        else:
+            vals[i] = a(vals[b], vals[c])
+        i += 1
+    return vals[n - 1]
+
+
+def drive_hist(case, extra):
+    """C10_Hist: replay one history of build / diff / drop operations on ONE DifferentiationMapper.
+    Every expression is built anew at its "build" and really deleted at its "drop" (the CSE nodes
+    last), so that a node freed by the mapper's client is up for reuse as in the model; a new CSE
+    node is placed on the address of a dead one of this history when the heap offers it.
+    Returns the observation of every diff step."""
+    from pymbolic.mapper.differentiator import DifferentiationMapper
+    envs = [{k: ser.json_to_val(v) for k, v in env.items()} for env in extra["envs"]]
+    pool, m = extra["pool"], extra["mappers"][case["m"] - 1]
+    pre, plans = {}, {}
+    for op in case["hist"]:
+        if op["op"] == "build" and op["i"] not in plans:
+            steps = []
+            _plan(pool[op["i"] - 1], steps, pre, {})
+            plans[op["i"]] = steps
+    mapper = DifferentiationMapper(ser.from_json(m["v"]), allowed_nonsmoothness=m["ns"])
+    roots, nodes, recycled, dead, obs = {}, {}, {}, set(), []
+    for k, op in enumerate(case["hist"]):
+        s = op["s"]
+        if op["op"] == "build":
+            nodes[s] = []
+            roots[s] = _execute(plans[op["i"]], dead, nodes[s])
+            recycled[s] = sum(1 for n in nodes[s] if id(n) in dead)
+        elif op["op"] == "drop":
+            for n in nodes[s]:
+                dead.add(id(n))
+            roots[s] = None
+            while nodes[s]:
+                nodes[s].pop()
+        else:
+            o = _observe(lambda: mapper(roots[s]), envs)          # noqa: B023
+            obs.append({"step": k, "i": op["i"], "out": o, "recycled": recycled[s]})
+    roots.clear()
+    nodes.clear()
+    del mapper
+    return {"id": case["id"], "m": case["m"], "obs": obs}
 
 
 # ------------------------------------------------------------- classification
@@ -83,9 +295,23 @@ def classify(out, verdicts, byid, envs):
         hit = next((k for k in known if k.get("clause") == v["v"] and k.get("pattern") in feats
                     and k.get("error", err) == err), None)
         sig = hit or {"clause": v["v"], "error": err, "features": feats}
-        entries = sorted({r["entry"] for r in rec["runs"] if r["k"] == v["k"]})
-        out.fail(sig, {"case": {"id": rec["id"], "e": rec["e"], "v": rec["v"]}, "envs": envs,
-                       "ns": v["ns"], "entries": entries, "point": v["env"], "recorded": res})
+        mine = [r for r in rec["runs"] if r["k"] == v["k"]]
+        entries = sorted({r["entry"] for r in mine})
+        detail = {"case": {"id": rec["id"], "e": rec["e"], "v": rec["v"]}, "envs": envs,
+                  "ns": v["ns"], "entries": entries, "point": v["env"], "recorded": res}
+        if "hist" in rec:
+            # a step of a history on one mapper instance
+            if not hit:
+                sig = dict(sig, family="history-on-one-mapper")
+            detail.update(hist=rec["hist"], pool=rec["pool"], mappers=rec["mappers"], where=rec["where"])
+        else:
+            detail["case"].update(rep=rec.get("rep", []), shs=rec.get("shs", []))
+            shared = sorted({r.get("sh", 0) for r in mine})
+            detail["sharing_variants"] = shared
+            # the observation came only from inputs with shared objects: part of the attribution
+            if not hit and 0 not in shared:
+                sig = dict(sig, input="repeated-subtree-is-one-shared-object")
+        out.fail(sig, detail)
     out.skipped += stats["SKIP"]
     out.drift += stats["DRIFT"]
     out.extra["tree_point_pairs_judged_equal"] = out.extra.get("tree_point_pairs_judged_equal", 0) + stats["PTS"]
@@ -96,14 +322,64 @@ def classify(out, verdicts, byid, envs):
     return stats
 
 
+_JUDGED = ("id", "e", "v", "outs", "runs")
+
+
 def judge(out, recs, wd, envs, shard=1500):
-    shards = kit.write_shards(recs, wd / "trace", f"c10-{os.getpid()}", shard)
+    shards = kit.write_shards([{k: r[k] for k in _JUDGED} for r in recs], wd / "trace", f"c10-{os.getpid()}", shard)
     verdicts, st, tr = kit.judge_shards("C10_Judge", "C10_Judge", shards)
     out.states += st
     out.transitions += tr
     out.traces += len(recs)
     (wd / "verdicts.json").write_text(json.dumps(verdicts))
     return classify(out, verdicts, {r["id"]: r for r in recs}, envs)
+
+
+# ------------------------------------------------- histories: model, replay
+HIST_ID0 = 1_000_000
+
+
+def hist_model(tier, out):
+    """The S-layer: one mapper with its CSE cache over build / diff / drop histories refines the
+    history-free rules (hard invariants); with the cache keyed by ADDRESS TLC must find the stale
+    derivative (negative control).  Returns (histories, pool, mappers)."""
+    res = kit.run_tlc("C10_Hist", f"C10_Hist_{tier}", workers=8)
+    kit.require_clean(res, "C10 history model (one mapper, CSE cache, heap)")
+    out.add_tlc(res)
+    printed = res.printed()
+    head = [p for p in printed if "pool" in p]
+    hcases = [p for p in printed if "hist" in p]
+    if len(head) != 1 or not hcases:
+        raise kit.MachineryError("C10 history model printed no pool / no histories")
+    neg = kit.run_tlc("C10_Hist", "C10_Hist_neg", workers=4, heap="1g")
+    out.add_tlc(neg)
+    if "EveryDerivativeIsOfItsOwnInput" not in neg.invariant_violated:
+        raise kit.MachineryError("negative control C10_Hist_neg: TLC did not report "
+                                 "EveryDerivativeIsOfItsOwnInput violated\n" + "\n".join(neg.out.splitlines()[-15:]))
+    for i, c in enumerate(hcases):
+        c["id"] = i
+    return hcases, head[0]["pool"], head[0]["mappers"]
+
+
+def hist_records(hcases, hobs, pool, mappers, id0=HIST_ID0):
+    """One record per distinct (mapper configuration, input, observation) of the diff steps of all
+    histories (the judgement depends on nothing else); where = the (history, step) pairs."""
+    groups, steps, recycled = {}, 0, 0
+    for case, ob in zip(hcases, hobs):
+        for o in ob["obs"]:
+            steps += 1
+            recycled += 1 if o["recycled"] else 0
+            key = json.dumps([case["m"], o["i"], o["out"]], sort_keys=True)
+            g = groups.get(key)
+            if g is None:
+                m = mappers[case["m"] - 1]
+                g = groups[key] = {"id": id0 + len(groups), "e": pool[o["i"] - 1], "v": m["v"], "outs": [o["out"]],
+                                   "runs": [{"ns": m["ns"], "entry": "one DifferentiationMapper, history", "sh": 0,
+                                             "k": 1}],
+                                   "hist": {"hist": case["hist"], "m": case["m"]}, "pool": pool, "mappers": mappers,
+                                   "where": {"history": case["id"], "step": o["step"], "steps": 0}}
+            g["where"]["steps"] += 1
+    return list(groups.values()), steps, recycled
 
 
 # ------------------------------------------------------- negative controls
@@ -163,8 +439,9 @@ def _cases(res):
 
 def run(tier, seed, out):
     wd = _workdir()
-    with cf.ThreadPoolExecutor(max_workers=1) as bg:
+    with cf.ThreadPoolExecutor(max_workers=2) as bg:
         neg = bg.submit(negative_controls, out)
+        hmod = bg.submit(hist_model, tier, out)
         gen = kit.run_tlc("C10_Gen", f"C10_Gen_{tier}")
         kit.require_clean(gen, "C10 generation / oracle laws / refinement report")
         out.add_tlc(gen)
@@ -189,8 +466,18 @@ def run(tier, seed, out):
                 f"({gen.wall:.1f}s); {len(design)} (pair, setting) combinations fail on the model "
                 f"(design-level classes)")
         recs = kit.drive("harness.c10", "drive_case", cases, {"envs": envs}, chunk=250)
+        for r, c in zip(recs, cases):
+            r["rep"], r["shs"] = c["rep"], c["shs"]
         out.evaluations += sum(len(r["runs"]) for r in recs)
-        stats = judge(out, recs, wd, envs)
+        # histories on one mapper instance
+        hcases, pool, mappers = hmod.result()
+        hobs = kit.drive("harness.c10", "drive_hist", hcases, {"envs": envs, "pool": pool, "mappers": mappers},
+                         chunk=120)
+        hrecs, hsteps, hrecycled = hist_records(hcases, hobs, pool, mappers)
+        out.evaluations += hsteps
+        kit.log(f"C10: {len(hcases)} histories on one mapper, {hsteps} diff steps "
+                f"({hrecycled} on an input with a node at a recycled address), {len(hrecs)} distinct observations")
+        stats = judge(out, recs + hrecs, wd, envs)
         neg.result()
     shutil.rmtree(wd / "trace", ignore_errors=True)      # the shards are large; verdicts.json stays
     # design-level classes found on the model, by attribution feature
@@ -207,8 +494,15 @@ def run(tier, seed, out):
     cfail |= {pair(r["e"], r["v"]) for r in recs if r["id"] in stats["failed_ids"]}
     out.extra["failing_pairs_model_vs_code"] = {"both": len(mfail & cfail), "model_only": len(mfail - cfail),
                                                 "code_only": len(cfail - mfail)}
+    nvar = sum(len(c["shs"]) for c in cases)
+    out.extra["object_sharing"] = {"pairs_with_a_repeated_subtree": sum(1 for c in cases if c["rep"]),
+                                   "sharing_variants_beyond_unshared": nvar}
+    out.extra["histories_on_one_mapper"] = {"histories": len(hcases), "diff_steps": hsteps,
+                                            "diff_steps_with_a_recycled_node_address": hrecycled,
+                                            "distinct_observations_judged": len(hrecs),
+                                            "negative_control_address_keyed_cache": "violated (as required)"}
     out.extra["records_fully_skipped"] = stats["SKIP"]
-    out.extra["records_judged_on_value_or_refusal"] = len(recs) - stats["SKIP"]
+    out.extra["records_judged_on_value_or_refusal"] = len(recs) + len(hrecs) - stats["SKIP"]
     out.extra["differentiate_calls"] = out.evaluations
     out.extra["points_per_tree"] = len(envs)
     for r in recs:
@@ -221,8 +515,12 @@ def run(tier, seed, out):
                 "constant/variable base and exponent, 11 table functions, copysign in either argument, unknown "
                 "functions, If, CSE with and without prefix) over typed holes filled from leaves and depth-1 "
                 "representatives (thorough: one more level + random deeper trees); variables x, y, a[0] and an "
-                "absent z; each pair is differentiated under all 3 settings through 3-4 entry points and judged at "
-                f"{len(envs)} points; distinct by canonical JSON, non-trivial = not a bare leaf")
+                "absent z; each pair is differentiated under all 3 settings through 3-4 entry points, once with "
+                "every node a new object and once per object-sharing variant TLC lists for it (all repeated "
+                "subtrees / only leaves / only compound / only outermost ones built as ONE object; thorough: every "
+                f"single one), and judged at {len(envs)} points; plus every build/diff/drop history (quick: 5 "
+                "operations, 5 CSE-carrying expressions, 3 mapper configurations) replayed on one mapper instance; "
+                "distinct by canonical JSON, non-trivial = not a bare leaf")
     out.exhaustive = True
     out.assumptions += [
         "elementary functions take values in the exact identity-respecting rational model of spec/Eval.tla "
@@ -238,7 +536,20 @@ def run(tier, seed, out):
 def replay(path, out):
     wd = _workdir()
     d = json.loads(open(path).read())
-    envs = d["detail"]["envs"]
-    recs = kit.drive("harness.c10", "drive_case", [d["detail"]["case"]], {"envs": envs})
-    out.evaluations += sum(len(r["runs"]) for r in recs)
+    det = d["detail"]
+    envs = det["envs"]
+    if "hist" in det:
+        hcase = dict(det["hist"], id=0)
+        hobs = kit.drive("harness.c10", "drive_hist", [hcase],
+                         {"envs": envs, "pool": det["pool"], "mappers": det["mappers"]})
+        recs, n, _ = hist_records([hcase], hobs, det["pool"], det["mappers"])
+        out.evaluations += n
+    else:
+        case = dict(det["case"])
+        case.setdefault("rep", [])
+        case.setdefault("shs", [])
+        recs = kit.drive("harness.c10", "drive_case", [case], {"envs": envs})
+        for r in recs:
+            r["rep"], r["shs"] = case["rep"], case["shs"]
+        out.evaluations += sum(len(r["runs"]) for r in recs)
     judge(out, recs, wd, envs)
